@@ -34,6 +34,16 @@ type (
 	I1 interface{ MI1() }
 	// I2 is implemented by *T0..*T7.
 	I2 interface{ MI2() }
+	// I3 embeds I0 and I2: it implements both and is implemented by *T0 and *T1.
+	I3 interface {
+		MI0()
+		MI2()
+	}
+	// EI is an error interface of the user's own: a result of this type is an error result.
+	EI interface {
+		error
+		Code() int
+	}
 
 	// NS0 is a named slice implementing I0.
 	NS0 []*T0
@@ -73,6 +83,7 @@ const (
 	IDI0     = 20
 	IDI1     = 21
 	IDI2     = 22
+	IDI3     = 23
 	IDInt    = 70
 
 	// FirstCompositeID is the lowest id a program may give to a composite type.
@@ -96,6 +107,7 @@ var byID = map[int]reflect.Type{
 	2: OutType,
 	3: reflect.TypeOf((*dig.In)(nil)),
 	4: reflect.TypeOf((*dig.Out)(nil)),
+	5: ifaceT((*EI)(nil)),
 
 	10: reflect.TypeOf((*T0)(nil)),
 	11: reflect.TypeOf((*T1)(nil)),
@@ -111,6 +123,7 @@ var byID = map[int]reflect.Type{
 	20: ifaceT((*I0)(nil)),
 	21: ifaceT((*I1)(nil)),
 	22: ifaceT((*I2)(nil)),
+	23: ifaceT((*I3)(nil)),
 
 	30: reflect.TypeOf([]*T0(nil)),
 	31: reflect.TypeOf([]*T1(nil)),
@@ -200,7 +213,7 @@ func Facts(id int) TypeInfo {
 			ti.Elem = e
 		}
 	}
-	for _, i := range []int{IDI0, IDI1, IDI2} {
+	for _, i := range []int{IDI0, IDI1, IDI2, IDI3} {
 		if t.Implements(byID[i]) {
 			ti.Impl = append(ti.Impl, i)
 		}
@@ -233,8 +246,9 @@ var expected = func() []TypeInfo {
 	add(2, "struct", -1, false)
 	add(3, "ptr", 1, false)
 	add(4, "ptr", 2, false)
-	add(10, "ptr", -1, false, 20, 22)
-	add(11, "ptr", -1, false, 20, 21, 22)
+	add(5, "iface", -1, true)
+	add(10, "ptr", -1, false, 20, 22, 23)
+	add(11, "ptr", -1, false, 20, 21, 22, 23)
 	add(12, "ptr", -1, false, 21, 22)
 	for id := 13; id <= 17; id++ {
 		add(id, "ptr", -1, false, 22)
@@ -243,6 +257,7 @@ var expected = func() []TypeInfo {
 	add(20, "iface", -1, false, 20)
 	add(21, "iface", -1, false, 21)
 	add(22, "iface", -1, false, 22)
+	add(23, "iface", -1, false, 20, 22, 23)
 	for n := 0; n < 8; n++ {
 		add(30+n, "slice", 10+n, false)
 	}
